@@ -3,7 +3,7 @@
    separately, as the code does: alignment is a theorem, not a definition.  lik and blob are arbitrary functions. *)
 From Coq Require Import List Arith.
 Import ListNotations.
-Require Import NV.Base NV.Shell2 NV.Shell2Inv NV.Shell2Uniq NV.Shell2Thm.
+Require Import NV.Base NV.Shell2 NV.Shell2Inv NV.Shell2Uniq NV.Shell2Thm NV.BlobShape.
 
 Section P.
 Variable contains : bid -> pid -> bool.
@@ -30,3 +30,13 @@ End P.
 Print Assumptions C03_rows.
 Print Assumptions C03_once.
 Print Assumptions C03_posterior.
+
+(* evaluation glue: the blob array keeps its batch axis for any batch size >= 1 and any blob shape (BlobShape.v) *)
+Theorem C03_blob_shape : forall n rest, squeeze_keep_batch (n :: rest) = n :: filter not_one rest /\
+  hd 0 (squeeze_keep_batch (n :: rest)) = n /\ size (squeeze_keep_batch (n :: rest)) = size (n :: rest) /\
+  Forall (fun k => k <> 1) (tl (squeeze_keep_batch (n :: rest))).
+Proof. exact keep_batch_spec. Qed.
+Print Assumptions C03_blob_shape.
+Theorem C03_squeeze_asis_refuted : exists s, hd 0 s = 1 /\ hd 0 (squeeze_all s) <> 1 /\ length (squeeze_all s) < length (squeeze_keep_batch s).
+Proof. exact squeeze_all_refuted. Qed.
+Print Assumptions C03_squeeze_asis_refuted.
